@@ -54,7 +54,7 @@ Print Assumptions C11_queries_readonly.
    through redo and redo-ifchange, and rebuilt only after the user removes it *)
 Example C11_example :
   let sc := {| s_deps := []; s_ifcreate := []; s_always := false; s_stamp := false;
-               s_out := OStdout; s_payload := 9; s_cat := false; s_exit := 0%Z |} in
+               s_out := OStdout; s_payload := 9; s_cat := false; s_exit := 0%Z; s_tol := false |} in
   let t := [116] in
   let h := [SWriteDo [116;46;100;111] sc; SWrite t [5]; SCmd (CRedo false [t]); SCmd (CIfChange false [t]);
             SRemove t; SCmd (CIfChange false [t])] in
